@@ -35,3 +35,22 @@ Definition needed7 (e : json) : list (bytes * bytes) :=
       end
   | _ => [(t_create, []); (t_power_levels, []); (t_member, Abs.ev_sender e)]
   end.
+
+(* ---------- the domain on which C07's accessors (exact key match) and encoding/json (ASCII
+   case-insensitive match, modelled in StateNeeded.v) read the same members ---------- *)
+From Verif Require Import Auth.StateNeeded.
+
+Definition exact_for (ks : list bytes) (m : list (bytes * json)) : bool :=
+  forallb (fun kv => forallb (fun k => implb (fold_eqb k (fst kv)) (bytes_eqb k (fst kv))) ks) m.
+
+Definition obj_exact (ks : list bytes) (j : option json) (inner : list (bytes * json) -> bool) : bool :=
+  match j with
+  | Some (JObj m) => exact_for ks m && inner m
+  | _ => true
+  end.
+
+Definition exact_keys (e : json) : bool :=
+  obj_exact [k_type; k_sender; k_state_key; k_content; k_room_id; k_event_id; k_prev_events; k_redacts] (Some e)
+    (fun m => obj_exact [k_membership; k_third_party_invite; k_via; k_mxid_mapping] (assoc_last k_content m)
+      (fun c => obj_exact [k_signed; k_display_name] (assoc_last k_third_party_invite c)
+        (fun t => obj_exact [k_token; k_mxid; k_signatures] (assoc_last k_signed t) (fun _ => true)))).
